@@ -1,4 +1,5 @@
 import Verif.Generated.FactsOK.Common
+import Verif.Generated.FactsOK.SrcAnalyzer
 import Verif.Properties.C16
 
 namespace Generated
